@@ -100,10 +100,10 @@ fn run(c: &mut Ctx, t: &[&str], precap: Option<usize>) -> Option<Out> {
   };
   if op == "deserialize" {
     let sq = crate::serde_script::Sq::parse(t[2], t[3])?;
-    if sq.items.iter().any(|x| x.is_none()) {
-      return Some(Out::Text("err".to_string())); // Vec reads to the end: any `E` is an error
+    if sq.until_end().iter().any(|x| x.is_none()) {
+      return Some(Out::Text("err".to_string())); // Vec reads to the first `None`: any `E` before it is an error
     }
-    c.put(r, Sh::Vec(sq.items.iter().flatten().copied().collect()));
+    c.put(r, Sh::Vec(sq.until_end().iter().flatten().copied().collect()));
     return Some(Out::Unit);
   }
   if let Some(v) = made {
